@@ -203,7 +203,7 @@ def gen(rng, tier):
                                                          "prefix": PREFIXES[si % 2], "dest": "config", "classes": classes, "root": root}}
     if tier == "thorough":
         yield from small_scope()
-    n = 120 if tier == "quick" else 3500
+    n = 120 if tier == "quick" else 3000
     for _ in range(n):
         names = rng.sample(LEAF_NAMES, len(LEAF_NAMES))
         members = rng.sample(MEMBER_NAMES, len(MEMBER_NAMES))
